@@ -18,6 +18,7 @@ enum { VP_EXC_NONE = 0, VP_EXC_VIOLATION = 1, VP_EXC_LOGIC_ERROR = 2, VP_EXC_USE
 int vp_exc;            /* exception in flight (0 = none) */
 int vp_cur;            /* exception currently being handled (for `throw;`) */
 int vp_terminated;     /* std::terminate / std::abort reached */
+int vp_unwinding;      /* > 0 while destructors run because an exception is propagating (std::uncaught_exception()) */
 
 /* ------------------------------------------------------------------- tokens */
 #ifndef VP_TOK_CAP
